@@ -88,6 +88,11 @@ static void dump( std::ostream & out ) {
         }
         out << ";";
     }
+    // look-ups by index at and above the count: "no instance there" is a null answer (the pointer is not followed here)
+    out << " | above";
+    for( int k = 0; k < 3; k++ ) {
+        out << " " << ( mgr->GetApplication_instance( n + k ) ? "X" : "-" ) << ( mgr->GetMgrNode( n + k ) ? "X" : "-" );
+    }
     out << "\n";
 }
 
